@@ -45,6 +45,7 @@ type Frame struct {
 	env   map[ssa.Value]Val
 	loopHeads map[int]map[string]T // heap snapshot at the head of each loop in its current iteration (for at(L, e))
 	loopHeadNames map[int]map[string]Val // the local variables as they were there
+	callArgs map[ssa.Value][]Val // the argument values each call was given (for argval())
 	ranCond map[ssa.Value]T // after a merge of paths: under which condition a call that only some of them made has run (for called())
 	names map[string]Val // source-level names bound by DebugRef (values) — latest
 	addrs map[string]Val // source-level names whose DebugRef is an address
@@ -65,6 +66,12 @@ func (f *Frame) clone() *Frame {
 	g.env = make(map[ssa.Value]Val, len(f.env))
 	for k, v := range f.env {
 		g.env[k] = v
+	}
+	if f.callArgs != nil {
+		g.callArgs = make(map[ssa.Value][]Val, len(f.callArgs))
+		for k, v := range f.callArgs {
+			g.callArgs[k] = v
+		}
 	}
 	if f.ranCond != nil {
 		g.ranCond = make(map[ssa.Value]T, len(f.ranCond))
